@@ -132,6 +132,7 @@ static void bodyBuild(const std::string& dir, int variant, Digest& d) {
     OPB; C3D c; snapTo(d, c, "fresh");
     OPB; c.point("A"); c.point(variant ? "Q" : "B"); c.analog("a"); snapTo(d, c, "declared");
     OPB; c.parameter("POINT", mkRate(100.f)); c.parameter("ANALOG", mkRate(200.f));
+    OPB; { Param p("X_SCREEN"); p.set(std::string(variant ? "+Y" : "+X")); c.parameter("POINT", p); Param q("GEN_SCALE"); q.set(variant ? 2.0f : 0.5f); c.parameter("ANALOG", q); }   // names the library does not maintain, in the groups it does
     OPB; { Param p("X", "some description"); p.set(std::vector<float>() = {1.5f, -2.5f, (float)variant, 4.f}, {2, 2}); c.parameter("NEWG", p); Param q("S"); q.set(std::vector<std::string>() = {"ab", variant ? "wxyz" : "cd"}); c.parameter("NEWG", q); }
     OPB; Shape sh; sh.pts = {"A", variant ? "Q" : "B"}; sh.chans = {"a"}; sh.nsub = 2; c.frame(buildFrame(sh, variant)); c.frame(buildFrame(sh, 2)); snapTo(d, c, "frames");
     OPB; Outcome oc = guarded([&] { Frame f = buildFrame(sh, 1); f.points_nonConst().point(Point("Z")); c.frame(f); }); d.add(std::string("bad frame ") + outcomeName(oc));
